@@ -181,6 +181,7 @@ prop('C06', [
     memo.r_memo,
     misc.r_visit,
     bounds.r_accept,
+    models.r_collect,
 ],
     'find_or_add and swap accept exactly the arguments of their contract '
     '(prologue interpreted over small models: no edge to a node that does '
@@ -222,6 +223,7 @@ prop('C08', [
     state.r_pair,
     memo.r_inval,
     models.r_autoref_apply,
+    models.r_autoref_siblings,
 ],
     'Function.__init__ takes exactly one count on every normal path and '
     'none before a rejection; __del__ gives back exactly one, once '
@@ -274,6 +276,7 @@ prop('C11', [
     domain.r_rebuild,
     handles.r_wrap_target,
     misc.r_args,
+    models.r_copy,
 ],
     'sign and roles in dd.bdd._copy_bdd and dd._copy._copy_bdd; rebuild '
     'through ite on the target variable.',
@@ -318,6 +321,7 @@ prop('C14', [
     memo.r_inval,
     raw.r_raw,
     formats.r_bound,
+    models.r_declare,
 ],
     'vars/_level_to_var written as inverse entries and the terminal moved '
     'below each new variable on every path of add_var; undeclare_vars '
@@ -370,6 +374,7 @@ prop('C17', [
     reord.r_context,
     handles.r_parser,
     raw.r_tempdir,
+    models.r_pickle_corrupt,
 ],
     'on every path of every function of dd.bdd, dd.autoref and dd._copy '
     'that writes manager state, no user-facing rejection (explicit raise '
@@ -391,6 +396,8 @@ prop('C18', [
     sign.r_sign,
     role.r_role,
     misc.r_visit,
+    models.r_function_views,
+    models.r_autoref_siblings,
 ],
     'low/high accessors return the successor of their name; succ() keeps '
     '(level, LOW, HIGH); to_nx labels value=False on LOW and carries the '
@@ -448,7 +455,9 @@ MODEL_TEXT = {
            'call and reset after it; identifiers that begin with a '
            'keyword probed through the source-level lexer.',
     'C06': ' Models: `incref` / `decref`, `find_or_add` (count zero, one '
-           'reference per edge).',
+           'reference per edge); `collect_garbage` on managers that hold '
+           'garbage, for every choice of referenced functions, with and '
+           'without roots to start from.',
     'C07': ' Models: `swap` on nine managers (levels exchanged, outside '
            'references keep number and function, tables and counts '
            'consistent, per-level index exact, sizes returned); the '
@@ -457,12 +466,18 @@ MODEL_TEXT = {
            'variables, pairs adjacent, sifted variable at a position of '
            'least size, never larger).',
     'C08': ' Models: `Function.__init__` / `__del__` against a recording '
-           'manager; `BDD.__del__`; `autoref.BDD.apply`.',
+           'manager; `BDD.__del__`; `autoref.BDD.apply`; every method '
+           '`dd.autoref.BDD` shares with `dd.bdd.BDD` interpreted on both '
+           'sides from the same manager (about 100 calls, two orders) '
+           'and compared.',
     'C10': ' Models: `support`, `descendants`, `is_essential` against '
            'reachability; `count` and `pick_iter` against truth tables '
            '(702 calls on three managers).',
     'C11': ' Models: `copy_vars` leaves the two managers agreeing or '
-           'refuses.',
+           'refuses; `BDD.copy`, `dd.bdd.copy_bdd`, `dd._copy.copy_bdd` '
+           'and `copy_bdds_from` (handles, one memo for several roots) '
+           'into targets with another order, a further variable and '
+           'nodes of their own, against truth tables by variable name.',
     'C12': ' Models: `_dump_bdd` then `load` on what it wrote (fresh '
            'manager, other variable order with levels=False, same '
            'manager); `BDD(levels)` for level tables listed in another '
@@ -475,7 +490,8 @@ MODEL_TEXT = {
            'nothing quantified or nothing renamed.',
     'C14': ' Models: `add_var` for every (name, level) request on five '
            'managers; `undeclare_vars` for every subset on five managers; '
-           '`BDD(levels)`; `copy_vars`.',
+           '`BDD(levels)`; `copy_vars`; `declare` of `dd.bdd` and '
+           '`dd.autoref` for lists with new, declared and repeated names.',
     'C15': ' Models: `MDD.find_or_add`, `MDD._top_cofactor`, `MDD.ite` '
            'and `MDD.apply` on a diagram with a three-valued above a '
            'two-valued variable (710 calls against the values over all '
@@ -491,7 +507,10 @@ MODEL_TEXT = {
     'C18': ' Models: `_to_dot` with `DotGraph` on twelve graphs (arcs, '
            'styles, complement marks, one external reference per root), '
            'and the legend of doc.md against the styles used; `support` / '
-           '`descendants`.',
+           '`descendants`; the views of `autoref.Function` (var, level, '
+           'low, high, negated, size, support, count, copy) on every '
+           'reference of two managers; `autoref.BDD.succ` and the other '
+           'shared methods against `dd.bdd.BDD`.',
     'C19': ' Models: the finalisers of the four Cython `Function` classes '
            'against a recording library call.',
 }
